@@ -7,7 +7,7 @@
 //!            "res":   {"r":"ok","id":..} | {"r":"err",..} | {"r":"panic",..},
 //!            "dump":  verif_dump() after the call (settings dropped),
 //!            "pre":   [{"base_id","def_len","next_id","entries":{id:children}}]  (state right before break_cycles),
-//!            "views": {id: {"name","ident","details"}}   public API for every entry | {"panic":..},
+//!            "views": {id: {"name","ident","details","has_impl"}}   public API for every entry | {"panic":..},
 //!            "render": {"r":"ok","items":[[mod,kind,name]..],"impls":[[mod,trait,for]..], "scan":<full>?} | {"r":"render-panic"|..}
 //!         }..]}
 use serde_json::{json, Value};
@@ -27,7 +27,8 @@ fn views(ts: &TypeSpace) -> Value {
             for t in v {
                 m.insert(
                     t["id"].as_u64().unwrap().to_string(),
-                    json!({"name": t["name"], "ident": t["ident"], "details": t["details"]}),
+                    json!({"name": t["name"], "ident": t["ident"], "details": t["details"],
+                           "has_impl": t["has_impl"]}),
                 );
             }
             Value::Object(m)
@@ -53,7 +54,27 @@ fn render(ts: &TypeSpace, full: bool) -> Value {
         .iter()
         .map(|i| json!([i["mod"], i["trait"], i["for"]]))
         .collect();
-    let mut out = json!({"r":"ok","items":items,"impls":impls});
+    // token-level fingerprint of every rendered item / impl: [mod, kind|trait, name|for, hash]
+    let h = |v: &Value| -> String {
+        use std::hash::{Hash, Hasher};
+        let mut hs = std::collections::hash_map::DefaultHasher::new();
+        v.to_string().hash(&mut hs);
+        format!("{:016x}", hs.finish())
+    };
+    let mut sigs: Vec<Value> = r["scan"]["items"]
+        .as_array()
+        .unwrap()
+        .iter()
+        .map(|i| json!([i["mod"], i["kind"], i["name"], h(i)]))
+        .collect();
+    sigs.extend(
+        r["scan"]["impls"]
+            .as_array()
+            .unwrap()
+            .iter()
+            .map(|i| json!([i["mod"], i["trait"], i["for"], h(i)])),
+    );
+    let mut out = json!({"r":"ok","items":items,"impls":impls,"sigs":sigs});
     if full {
         out["scan"] = r["scan"].clone();
     }
